@@ -10,6 +10,7 @@ import (
 	"strings"
 
 	"github.com/biogo/biogo/alphabet"
+	"github.com/biogo/biogo/feat"
 	"github.com/biogo/biogo/seq"
 	"github.com/biogo/biogo/seq/alignment"
 	"github.com/biogo/biogo/seq/linear"
@@ -125,18 +126,44 @@ func Alpha(n string) alphabet.Alphabet {
 		return alphabet.RNAredundant
 	case "Protein":
 		return alphabet.Protein
+	case "PlainDNA":
+		return plainDNA
+	case "PairedProtein":
+		return pairedProtein
 	}
 	panic("unknown alphabet " + n)
 }
+
+// Two user-built alphabets whose molecule type and ability to complement
+// disagree (in the built-ins they always agree): a nucleotide alphabet
+// without a pairing, and a paired alphabet declared as protein. What
+// complements is decided by the Complementor interface, not by the type.
+var plainDNA, pairedProtein = func() (alphabet.Alphabet, alphabet.Alphabet) {
+	a, err := alphabet.NewAlphabet("-acgtn", feat.DNA, '-', 'n', false)
+	if err != nil {
+		panic(err)
+	}
+	p, err := alphabet.NewPairing("lrudxLRUDX-", "rlduxRLDUX-")
+	if err != nil {
+		panic(err)
+	}
+	b, err := alphabet.NewComplementor("-lrudx", feat.Protein, p, '-', 'x', false)
+	if err != nil {
+		panic(err)
+	}
+	return a, b
+}()
 
 // pairings as documented for the built-in alphabets (see also C17)
 var pairS = map[string]string{
 	"DNA": "acgtnxACGTNX-", "DNAgapped": "acgtnxACGTNX-", "DNAredundant": "acmgrsvtwyhkdbnxACMGRSVTWYHKDBNX-",
 	"RNA": "acgunxACGUNX-", "RNAgapped": "acgunxACGUNX-", "RNAredundant": "acmgrsvuwyhkdbnxACMGRSVUWYHKDBNX-",
+	"PairedProtein": "lrudxLRUDX-",
 }
 var pairC = map[string]string{
 	"DNA": "tgcanxTGCANX-", "DNAgapped": "tgcanxTGCANX-", "DNAredundant": "tgkcysbawrdmhvnxTGKCYSBAWRDMHVNX-",
 	"RNA": "ugcanxUGCANX-", "RNAgapped": "ugcanxUGCANX-", "RNAredundant": "ugkcysbawrdmhvnxUGKCYSBAWRDMHVNX-",
+	"PairedProtein": "rlduxRLDUX-",
 }
 
 // PairedLetters returns the letters the named complementing alphabet pairs.
